@@ -1089,8 +1089,13 @@ impl OverlayFs {
             let parent = v.parent.lock().unwrap();
 
             if let Some(p) = parent.upgrade() {
-                // remove it from hashmap
-                p.remove_child(v.name.as_str());
+                // remove it from hashmap, unless another node has taken over the name since this
+                // one was unlinked
+                if let Some(c) = p.child(v.name.as_str()) {
+                    if Arc::ptr_eq(&c, &v) {
+                        p.remove_child(v.name.as_str());
+                    }
+                }
             }
         }
     }
@@ -1921,7 +1926,9 @@ impl OverlayFs {
             need_whiteout = false;
         }
 
-        let mut path_removed = None;
+        // The name is deleted from the merged view whichever layer it lived in: whatever shows up under
+        // this path next is another file and must not inherit the inode number reserved for this one.
+        let path_removed = Some(node.path.clone());
         if node.in_upper_layer() {
             pnode.handle_upper_inode_locked(&mut |parent_upper_inode| -> Result<bool> {
                 let parent_real_inode = parent_upper_inode.ok_or_else(|| {
@@ -1948,8 +1955,6 @@ impl OverlayFs {
 
                 Ok(false)
             })?;
-
-            path_removed.replace(node.path.clone());
         }
 
         trace!(
